@@ -127,9 +127,23 @@ def apply(h, m):
         raise AssertionError(m)
 
 
-def histories(h_factory, depth, tier="quick", kinds=None):
+def observe(h):
+    """Every read-only observer of a Hugr, called before a mutation so that anything memoised too
+    early (a cached link list, a cached serialization, a renderer's scratch state) is in place when the
+    mutation happens.  Observers may legitimately raise on incomplete graphs; results are discarded."""
+    for f in (lambda: h.to_json(), lambda: list(h.links()), lambda: h.render_dot(), lambda: h.to_model(), lambda: [h.children(n) for n in h],
+              lambda: [(h.num_in_ports(n), h.num_out_ports(n)) for n in h], lambda: h.num_nodes()):
+        try:
+            f()
+        except Exception:  # noqa: BLE001
+            pass
+
+
+def histories(h_factory, depth, tier="quick", kinds=None, pre=observe):
     """All mutation histories up to `depth`; yields (history, hugr).  `kinds` restricts the first
-    level to the first mutation of each listed kind."""
+    level to the first mutation of each listed kind.  `pre` (default: observe) is called on the graph
+    before every mutation: mutating an already-observed graph is the ordinary case."""
+    pre = pre or (lambda h: None)
     h0 = h_factory()
     yield [], h0
     if depth == 0:
@@ -144,11 +158,14 @@ def histories(h_factory, depth, tier="quick", kinds=None):
         first = picked
     for m in first:
         h1 = h_factory()
+        pre(h1)
         apply(h1, m)
         yield [m], h1
         if depth >= 2:
             for m2 in menu(h1, tier):
                 h2 = h_factory()
+                pre(h2)
                 apply(h2, m)
+                pre(h2)
                 apply(h2, m2)
                 yield [m, m2], h2
